@@ -6,7 +6,7 @@ from vf import gen, schema
 
 PROP = 'C17'
 ASPECTS = ['object-name', 'set-identifier', 'header-id', 'signed-int', 'channel-in-no-frame', 'channel-in-two-frames',
-           'non-uniform-index', 'attr-units', 'channel-units', 'index-type', 'equipment-type', 'equipment-location',
+           'non-uniform-index', 'non-uniform-index-with-spacing', 'attr-units', 'channel-units', 'index-type', 'equipment-type', 'equipment-location',
            'ident-attribute']
 PATTERNS = ['plain', 'nested', 'exception-at-build', 'exception-at-write', 'decorator', 'generator-abandoned',
             'interleaved-outside-file', 'assign-after-leaving', 'created-outside-assigned-inside', 'nested-decorators',
@@ -96,6 +96,11 @@ def breach(sp, a, r):
     elif a == 'non-uniform-index':
         n = ops[ch[0]]['data']['shape'][0]
         ops[ch[0]]['data']['fill'] = {'kind': 'seq', 'values': [100.0 + k * 0.5 + (3.0 if k == n - 1 else 0.0) for k in range(n)]}
+    elif a == 'non-uniform-index-with-spacing':
+        # the index is just as irregular, but the frame comes with a SPACING of the user's own
+        n = ops[ch[0]]['data']['shape'][0]
+        ops[ch[0]]['data']['fill'] = {'kind': 'seq', 'values': [100.0 + k * 0.5 + (3.0 if k == n - 1 else 0.0) for k in range(n)]}
+        ops[fr[0]]['attrs']['spacing'] = r.choice([0.5, {'$setup': {'value': 0.5, 'units': 'm'}, 'route': r.choice(['dict', 'AttrSetup'])}])
     elif a == 'attr-units':
         eq = next(o for o in ops if o['op'] == 'equipment')
         eq['attrs']['height'] = {'$setup': {'value': 1.5, 'units': r.choice(gen.NONSTD_UNITS)}, 'route': r.choice(['dict', 'AttrSetup'])}
@@ -124,6 +129,22 @@ def hc_invariants(run, sp):
     ident = run.phys.sul.set_identifier.rstrip(' ')
     if not HC_RE.fullmatch(ident):
         out.append(('set-identifier', repr(ident)))
+    # the index data itself (as supplied): an indexed frame written inside the context must be uniformly spaced, whether
+    # its SPACING was derived or given.  Only CLEAR non-uniformity counts (a step > 10 % off the median step; the
+    # library's own tolerance is ~3 %), so nothing the library may legitimately accept is flagged.
+    import numpy as np
+    for fi, fo in enumerate(sp['ops']):
+        if fo['op'] != 'frame' or fo['attrs'].get('index_type') is None or run.built is None:
+            continue
+        ci = fo['attrs']['channels']['$tuple'][0]['$ref']
+        arr = run.built.arrays.get(ci)
+        if arr is None or arr.ndim != 1 or arr.shape[0] < 3:
+            continue
+        d = np.diff(arr.astype(np.float64))
+        med = float(np.median(d))
+        if med != 0 and np.all(np.isfinite(d)) and float(np.max(np.abs(d / med - 1.0))) > 0.10:
+            out.append(('non-uniform-index-with-spacing' if 'spacing' in fo['attrs'] else 'non-uniform-index',
+                        f'indexed frame {fo["name"]}: index steps {sorted(set(np.round(d, 6).tolist()))[:4]} are not uniform'))
     for li, dl in enumerate(run.lfs):
         hid = dl.header.objects[0].attrs['ID'].values[0].rstrip(' ')
         if not HC_RE.fullmatch(hid):
